@@ -107,7 +107,7 @@ func writeEvidence(path, prop, tier string, hs []*Harness, results []*HarnessRes
 			"functions_encoded": fnames,
 			"harness": r.H.Name, "file": r.H.File, "entry": r.H.Fn.String(), "entry_hash": fnHash(r.H.Fn), "bounds": bounds,
 			"paths": r.Stats.Paths, "instructions": r.Stats.Steps, "decisions": r.Stats.Decisions, "sched_points": r.Stats.SchedPoints,
-			"queries": r.Queries, "unsat": r.NUnsat, "sat": r.NSat, "unknown": r.NUnknown, "solver_s": round2(r.SolverWall.Seconds()),
+			"queries": r.Queries, "unsat": r.NUnsat, "sat": r.NSat, "unknown": r.NUnknown, "solver_s": round2(r.SolverWall.Seconds()), "max_query_s": round2(r.MaxQuery.Seconds()), "query_timeout_s": r.H.Opts["qtimeout"],
 			"wall_s": round2(r.Wall.Seconds()), "assertions_discharged": r.Stats.Asserts, "covers": r.Stats.Covers, "stubs": r.H.Stubs,
 			"truncated": r.Stats.Truncated, "workers": r.Workers,
 		})
